@@ -508,7 +508,7 @@ func runCodec(c *core.Ctx) {
 		}
 	}
 	if c.WantGen("rand") {
-		per := c.Pick(5, 40) // random versions per family and type
+		per := c.Pick(5, 100) // random versions per family and type
 		const chunk = 800    // histories per trace file (TLC loads a trace file whole)
 		var t *core.Trace
 		cas, inFile := 0, 0
@@ -1127,7 +1127,7 @@ func runMask(c *core.Ctx) {
 		}
 	}
 	if c.WantGen("rnd") {
-		n := c.Pick(40, 600)
+		n := c.Pick(40, 1500)
 		for cas := 0; cas < n; cas++ {
 			if !c.Want("rnd", cas) {
 				continue
